@@ -280,6 +280,17 @@ pub fn enumerated() -> Vec<String> {
         out.push(format!("go depth {}", std::iter::repeat('9').take(n).collect::<String>()));
         out.push(format!("go {}", long));
     }
+    // (b') very long lines of multi-byte characters, in every alignment to a power-of-two byte
+    // offset (a buffer limit that cuts at a fixed byte count must cut on a character boundary)
+    for unit in ["é", "€", "😀"] {
+        for target in [1024usize, 4096, 8192, 16384, 32768, 65536] {
+            for pad in 0..unit.len() {
+                let head = format!("position startpos moves e2e4 {}", " ".repeat(pad));
+                let n = (target + 64) / unit.len() + 8;
+                out.push(format!("{}{}", head, unit.repeat(n)));
+            }
+        }
+    }
     out.retain(|l| !l.contains('\n'));
     out
 }
